@@ -50,7 +50,14 @@ fn check<'a, T: DiffableStr + ?Sized>(d: &'a TextDiff<'a, 'a, 'a, T>, dl: Dl, fa
         };
         vh::set_clock(vh::Clock::Off);
         // every way of consuming the inline iterator delivers the same changes (sampled: first Replace op)
-        if op.tag() == DiffTag::Replace && counts.replace_ops == 0 && inline.len() <= 24 && plain.iter().map(|c| c.3.len()).sum::<usize>() <= 2000 && matches!(dl, Dl::NoneGiven | Dl::Expired) {
+        // (every mk() of the battery re-runs the word-level diff: sampled, one diff in 24)
+        if op.tag() == DiffTag::Replace
+            && counts.replace_ops == 0
+            && inline.len() <= 24
+            && plain.iter().map(|c| c.3.len()).sum::<usize>() <= 2000
+            && matches!(dl, Dl::NoneGiven | Dl::Expired)
+            && crate::engine::digest(&plain.iter().map(|c| c.3.clone()).collect::<Vec<_>>()) % 24 == 0
+        {
             let row = |c: similar::InlineChange<'a, T>| format!("{:?} {:?} {:?} {:?}", c.tag(), c.old_index(), c.new_index(), c.values().iter().map(|(e, v)| (*e, v.as_bytes().to_vec())).collect::<Vec<_>>());
             let dlv = if matches!(dl, Dl::Expired) { Some(past) } else { None };
             let f = iter_battery(&|| d.iter_inline_changes_deadline(op, dlv), &row, oi as u64 * 7 + inline.len() as u64);
